@@ -1127,7 +1127,9 @@ class Interp:
                 if name == "as_integer":
                     yield norm(AInt(fr.lanes)), env, st
                     return
-                if name == "as_byte_sequence":
+                if name in ("as_byte_sequence", "pack"):
+                    # (pack: the same bytes as a bytes object - C05 decides
+                    # that the two agree)
                     nb = (fr.w + 7) // 8
                     ls = fr.lanes + [0] * (nb * 8 - fr.w)
                     yield [norm(AInt(ls[8 * i:8 * i + 8]))
